@@ -88,10 +88,11 @@ func sim(casesPath, obsPath string) {
 	lib.ParallelMap(len(cases), runtime.NumCPU(), func(i int) {
 		g := cases[i]
 		colls := map[string]system.Collection{
-			"ints":  {system.Integer(1), system.Integer(2), system.Integer(2), system.Integer(3)},
-			"mixed": {system.Integer(1), system.String("a"), system.MustParseDecimal("1.0"), system.Integer(2), system.String("a")},
-			"none":  {},
-			"looks": {system.Integer(1), system.String("1"), system.Boolean(true), system.String("true"), system.MustParseDecimal("1.0"), system.String("1.0"), system.Integer(1)},
+			"ints":   {system.Integer(1), system.Integer(2), system.Integer(2), system.Integer(3)},
+			"mixed":  {system.Integer(1), system.String("a"), system.MustParseDecimal("1.0"), system.Integer(2), system.String("a")},
+			"none":   {},
+			"decint": {system.MustParseDecimal("2.0"), system.Integer(2), system.String("a"), system.MustParseDecimal("2.00"), system.Integer(3), system.MustParseDecimal("3.0")},
+			"looks":  {system.Integer(1), system.String("1"), system.Boolean(true), system.String("true"), system.MustParseDecimal("1.0"), system.String("1.0"), system.Integer(1)},
 		}
 		opts := []fhirpath.EvaluateOption{}
 		for name, c := range colls {
@@ -144,6 +145,7 @@ func main() {
 			evalopts.EnvVariable("ints", system.Collection{system.Integer(1), system.Integer(2), system.Integer(2), system.Integer(3)}),
 			evalopts.EnvVariable("mixed", system.Collection{system.Integer(1), system.String("a"), system.MustParseDecimal("1.0"), system.Integer(2), system.String("a")}),
 			evalopts.EnvVariable("none", system.Collection{}),
+			evalopts.EnvVariable("decint", system.Collection{system.MustParseDecimal("2.0"), system.Integer(2), system.String("a"), system.MustParseDecimal("2.00"), system.Integer(3), system.MustParseDecimal("3.0")}),
 			evalopts.EnvVariable("looks", system.Collection{system.Integer(1), system.String("1"), system.Boolean(true), system.String("true"), system.MustParseDecimal("1.0"), system.String("1.0"), system.Integer(1)}),
 		}
 	}
@@ -165,10 +167,11 @@ func main() {
 	lib.ParallelMap(len(cases), runtime.NumCPU(), func(i int) {
 		g := cases[i]
 		colls := map[string]system.Collection{
-			"ints":  {system.Integer(1), system.Integer(2), system.Integer(2), system.Integer(3)},
-			"mixed": {system.Integer(1), system.String("a"), system.MustParseDecimal("1.0"), system.Integer(2), system.String("a")},
-			"none":  {},
-			"looks": {system.Integer(1), system.String("1"), system.Boolean(true), system.String("true"), system.MustParseDecimal("1.0"), system.String("1.0"), system.Integer(1)},
+			"ints":   {system.Integer(1), system.Integer(2), system.Integer(2), system.Integer(3)},
+			"mixed":  {system.Integer(1), system.String("a"), system.MustParseDecimal("1.0"), system.Integer(2), system.String("a")},
+			"none":   {},
+			"decint": {system.MustParseDecimal("2.0"), system.Integer(2), system.String("a"), system.MustParseDecimal("2.00"), system.Integer(3), system.MustParseDecimal("3.0")},
+			"looks":  {system.Integer(1), system.String("1"), system.Boolean(true), system.String("true"), system.MustParseDecimal("1.0"), system.String("1.0"), system.Integer(1)},
 		}
 		if len(g.Dspec) > 0 || containsVar(g.Text, "%d") {
 			c1 := focusItems(g.Ftxt, mr1)
